@@ -20,8 +20,10 @@ int g_steps;                 /* number of step calls so far */
 int str_to_instr__c(struct instr *instr_data, const char unfiltered_str[], int *read_len)
   __CPROVER_requires(__CPROVER_rw_ok(instr_data, sizeof(struct instr)) && __CPROVER_rw_ok(read_len, sizeof(int)))
   __CPROVER_requires(IN_TEXT(unfiltered_str) && unfiltered_str < g_str + g_n && unfiltered_str[0] != '\0')
-  __CPROVER_assigns(__CPROVER_object_whole(instr_data), *read_len, g_eq_s2)
-  STR_TO_INSTR_POST(instr_data, unfiltered_str, read_len, (g_str + g_n) - unfiltered_str);
+  __CPROVER_assigns(__CPROVER_object_whole(instr_data), *read_len)
+  /* the line loop needs the range clauses only (the position clauses of STR_TO_INSTR_POST are what makes
+   * consecutive iterations see consecutive lines; they are proved on the real body in C06.str_to_instr) */
+  STR_TO_INSTR_POST_RANGE(instr_data, unfiltered_str, read_len, (g_str + g_n) - unfiltered_str);
 
 #define LSTEP_PRE(al, I, buf_pos)                                                              \
   __CPROVER_requires(__CPROVER_rw_ok(al, sizeof(struct assemblyline)) && al->external && al->buffer_len >= 0) \
